@@ -364,6 +364,42 @@ def r11(ctx: Context) -> None:
     ctx.floor("R11", "duration reads in trigger code", n, 2)
 
 
+def replace_resets(repo, sites, class_filter=None) -> list[tuple]:
+    """(site, table, columns reset) for every `INSERT OR REPLACE` / `REPLACE` that lists only some columns of a table whose
+    other columns are maintained by UPDATE statements of the same class: REPLACE deletes the old row, those columns fall
+    back to their defaults"""
+    import re
+
+    out = []
+    by_cls: dict[str, list] = {}
+    for s in sites:
+        if s.func.cls is not None and (class_filter is None or class_filter(s.func.cls)):
+            by_cls.setdefault(s.func.cls.qualname, []).append(s)
+    for ss in by_cls.values():
+        upd: dict[str, set[str]] = {}
+        for s in ss:
+            if s.verb == "UPDATE":
+                t = sqlmini.target_table(s.template)
+                m = re.search(r"\bSET\b(.*?)(\bWHERE\b|$)", " ".join(s.template.split()), re.I)
+                cols = [c.split("=")[0].strip() for c in sqlmini._split_top(m.group(1), ",")] if m else []
+                upd.setdefault(t or "?", set()).update(cols)
+        for s in ss:
+            if (s.verb.startswith("INSERT") and sqlmini.conflict_clause(s.template) == "OR REPLACE") or s.verb == "REPLACE":
+                t = sqlmini.target_table(s.template) or "?"
+                miss = upd.get(t, set()) - set(sqlmini.insert_columns(s.template))
+                out.append((s, t, sorted(miss)))
+    return out
+
+
+def r12(ctx: Context, sites) -> None:
+    ctx.rule("R12", "registering a condition again (every runner does at start-up) keeps what the trigger store remembers about it: no `INSERT OR REPLACE` of the trigger backend lists fewer columns than other statements maintain (REPLACE deletes the row: last_cron_execution would be reset and the current tick fire again)")
+    bt = ctx.repo.cls("BaseTrigger")
+    rows = replace_resets(ctx.repo, sites, lambda c: c.is_subclass_of(bt))
+    for s, t, miss in rows:
+        ctx.add("R12", f"{s.func.qualname}::replace-keeps-maintained-columns::{t.split('.')[-1]}", not miss, s.where, "" if not miss else f"INSERT OR REPLACE INTO {t} lists {sqlmini.insert_columns(s.template)} only; {miss} - written by UPDATE statements of the same backend - is reset to NULL whenever the row is registered again: the cron tick that already fired in this window fires once more (the in-memory backend keeps the value)")
+    ctx.floor("R12", "replace statements of the trigger backend", len(rows), 4)
+
+
 def run(ctx: Context) -> None:
     sites = sqlmini.sites(ctx.repo)
     loop = ctx.repo.cls("BaseTrigger").methods.get("trigger_loop_iteration")
@@ -377,6 +413,7 @@ def run(ctx: Context) -> None:
     r9(ctx, loop)
     r10(ctx)
     r11(ctx)
+    r12(ctx, sites)
     ctx.exhaustive = True
     ctx.not_decided += [
         "the cron window / minimum-interval / next-tick arithmetic against a brute-force schedule (numeric over runtime timestamps and croniter)",
